@@ -196,7 +196,10 @@ def harness_factory(variant, k, first=None, ops=None):
                     h.kids.append(Item(value=7))
                 elif op == "insert_dup":
                     if n:
-                        h.kids.insert(ex.int("i%d" % step), h.kids[0])
+                        try:
+                            h.kids.insert(ex.int("i%d" % step), h.kids[0])
+                        except OverflowError:
+                            pass                # beyond a C ssize_t: refused, as by the built-in list
                 elif op == "del":
                     try:
                         del h.kids[ex.int("i%d" % step)]
